@@ -113,6 +113,9 @@ pub struct CallRec {
     /// the largest C05 limit (step / radius) configured at any time since the last setup
     /// (PRM: since the roadmap was last built) - edges created earlier may be that long
     pub step_limit_since_setup: f64,
+    /// length of the event log when the call began / when the last setup began
+    pub log_mark: usize,
+    pub log_mark_of_last_setup: usize,
 }
 
 pub fn run_history<K: Kit>(kit: &K, h: &History, keep_events: bool, budget: u64) -> Result<(Drv<K>, Vec<CallRec>), String> {
@@ -132,6 +135,7 @@ pub fn run_history<K: Kit>(kit: &K, h: &History, keep_events: bool, budget: u64)
     };
     let mut recs = vec![];
     let mut limit_since_setup = h.params.step_limit();
+    let mut last_setup_mark = 0usize;
     let mut pd: Option<usize> = None;
     let mut checker: Option<usize> = None;
     // problem-definition objects are created once per problem and re-used (same Arc)
@@ -143,6 +147,10 @@ pub fn run_history<K: Kit>(kit: &K, h: &History, keep_events: bool, budget: u64)
             (l.n_uniform + l.n_goal_sample, l.n_valid)
         };
         let (pd_at, ck_at) = (pd, checker);
+        let log_mark = d.log.borrow().recs.len();
+        if matches!(op, Op::Setup(_) | Op::SetupMixed(..)) {
+            last_setup_mark = log_mark;
+        }
         let res = match op {
             Op::Setup(i) => {
                 let inst = match &objects[*i] {
@@ -218,6 +226,8 @@ pub fn run_history<K: Kit>(kit: &K, h: &History, keep_events: bool, budget: u64)
             queries: q1 - q0,
             clock_reads: d.last_call_clock_reads,
             step_limit_since_setup: limit_since_setup,
+            log_mark,
+            log_mark_of_last_setup: last_setup_mark,
         });
         if panicked {
             // the planner may be in an arbitrary state after unwinding: stop the history
